@@ -20,7 +20,7 @@ fn witness_cases(seed: u64) -> Vec<MuxCase> {
             for (pi, pc) in [plain.clone(), frag.clone()].into_iter().enumerate() {
                 let up = plan(&sizes, w, (k as u8 + w) % 3, &[8192]);
                 let down = plan(&sizes, w.min(1), (k as u8 + w + 1) % 3, &[1000, 70000]);
-                v.push(MuxCase { seed: seed ^ (k as u64 * 31 + w as u64 * 7 + pi as u64), streams: vec![(up, down)], c2s: pc.clone(), s2c: pc, scheme: None, sched_p: 0.0, inline_first: w == 0, locator: (usize::MAX, v.len()), concurrent_opens: false });
+                v.push(MuxCase { seed: seed ^ (k as u64 * 31 + w as u64 * 7 + pi as u64), streams: vec![(up, down)], c2s: pc.clone(), s2c: pc, scheme: None, sched_p: 0.0, inline_first: w == 0, locator: (usize::MAX, v.len()), concurrent_opens: false, half_close: vec![] });
             }
         }
     }
@@ -81,9 +81,9 @@ pub fn run(ctx: Ctx) -> Report {
 pub fn meta() -> CheckMeta {
     CheckMeta {
         level: "exploration",
-        rule: "each case = one client/server Session pair over two seeded MemPipes (capacity, write/read fragmentation, spurious Pending), 1-8 streams, per stream and direction a chunk-size sequence from a boundary-heavy pool (0,1,7,8,8192,16384,65535,65536,70000,131072,200000,...), one of 3 submission paths and 3 read paths, optional random padding scheme and random sched-point yields; every byte read is compared online with the position-addressable pattern written at that offset; completeness and 'nothing more' are checked at quiescence under virtual time. distinct_nontrivial counts distinct (chunk sequences, APIs, pipe configs) whose transport fragments frames or that contain a chunk above one frame.".into(),
+        rule: "each case = one client/server Session pair over two seeded MemPipes (capacity, write/read fragmentation, spurious Pending), 1-8 streams, per stream and direction a chunk-size sequence from a boundary-heavy pool (0,1,7,8,8192,16384,65535,65536,70000,131072,200000,...), one of 3 submission paths and 3 read paths, optional random padding scheme and random sched-point yields; in about a quarter of the streams one side ends its direction (FIN) after its last chunk and the other side writes its data only after that FIN has been processed (a FIN ends one direction only: the open direction must still deliver every byte); every byte read is compared online with the position-addressable pattern written at that offset; completeness and 'nothing more' are checked at quiescence under virtual time. distinct_nontrivial counts distinct (chunk sequences, APIs, pipe configs) whose transport fragments frames or that contain a chunk above one frame.".into(),
         assumptions: vec!["tokio's paused clock only advances when every task is idle, so 'still waiting after 3600 virtual s' means blocked forever".into(), "streams are never closed in this workload (C08 covers closing)".into()],
-        floors: vec![("bytes_compared", 1_000_000), ("witness_cases", 40), ("cases_with_chunk_above_65535", 5), ("cases_with_empty_chunk", 20)],
+        floors: vec![("bytes_compared", 1_000_000), ("witness_cases", 40), ("cases_with_chunk_above_65535", 5), ("cases_with_empty_chunk", 20), ("streams_with_one_direction_ended_first", 100)],
         exhaustive: false,
     }
 }
